@@ -80,6 +80,8 @@ class RZILTransformer(Transformer):
         # Classes of Pures which should not be initialized in the C code.
         self.inlined_pure_classes = (Number, Sizeof, Cast, Bool)
         self.imm_set_effect_list = list()
+        # Prefix of the local variables which hold the value of hybrids.
+        self.hybrid_tmp_prefix = "h_tmp"
 
         self.arch = arch
         self.sub_routines: dict[str:SubRoutine] = (
@@ -1120,7 +1122,7 @@ class RZILTransformer(Transformer):
         if hybrid.value_type.group & VTGroup.VOID:
             return hybrid
 
-        tmp_x_name = f"h_tmp{self.il_ops_holder.hybrid_op_count}"
+        tmp_x_name = f"{self.hybrid_tmp_prefix}{self.il_ops_holder.hybrid_op_count}"
         self.il_ops_holder.hybrid_op_count += 1
         if hybrid.seq_order == HybridSeqOrder.EXEC_ONLY:
             # Doesn't return anything. So no LocalVar for the return value has to be initialized.
